@@ -182,6 +182,15 @@ func (c *compiler) assembleLine(in sourceLine) (Instruction, error) {
 	var op OpCode
 	var opMode OpMode
 	if c.config.Mode == ICWS88 {
+		// only the four '88 addressing modes may be written
+		for _, written := range []string{in.amode, in.bmode} {
+			if written == "" {
+				continue
+			}
+			if _, err := getAddressMode88(written); err != nil {
+				return Instruction{}, err
+			}
+		}
 		op88, err := getOpCode88(in.op)
 		if err != nil {
 			return Instruction{}, err
